@@ -668,3 +668,12 @@ Fixpoint count_pre (t : text) : nat :=
   | [] => O
   | _ :: r => ((if starts_with PRE t then 1 else 0) + count_pre r)%nat
   end.
+
+(* lines handed to retrieve WITHOUT their terminator (str.splitlines(), rstrip, one log
+   message per line): remove one trailing newline *)
+Fixpoint strip_nl (l : text) : text :=
+  match l with
+  | [] => []
+  | [c] => if Z.eqb c NL then [] else [c]
+  | c :: r => c :: strip_nl r
+  end.
